@@ -16,6 +16,7 @@ without Operator / AdParser.  Python only drives the code and converts numbers."
 from __future__ import annotations
 
 import operator as _op
+import json
 import warnings
 from fractions import Fraction
 from functools import partial
@@ -405,6 +406,27 @@ def execute(fix, rec, entry):
                     out["v"]["n"] = int(_as_vec(vres).size)
             except Exception as e:
                 out["v"]["err"] = _err(e)
+        # the same operator evaluated again after Scalar.set_value (the way a model changes its time step): the value of the
+        # Scalar leaf S becomes 3, the tree is multiplied by a new Scalar(2) (S's old value); the oracle is 2 * direct(S = 3)
+        out["again"] = dict(done=False, err="", qv=0, qj=0)
+        if dres is not None and out["d"]["kind"] == "AdArray" and finite and rk == "AdArray" and '"S"' in json.dumps(expr):
+            S, keep = fix.base["S"], fix.plain["S"]
+            try:
+                S.set_value(3.0)
+                fix.plain["S"] = 3.0
+                fix.all_finite = True
+                ref2 = fix.direct(rec["prog"], ad)
+                if fix.all_finite and np.all(np.isfinite(ref2.val)) and np.all(np.isfinite(_dense(ref2.jac))):
+                    try:
+                        d2 = _evaluate(fix, o * pp.ad.Scalar(2.0), True, entry)
+                        out["again"].update(done=True, qv=_dev(d2.val, 2.0 * ref2.val), qj=_dev(_dense(d2.jac), 2.0 * _dense(ref2.jac)))
+                    except Exception as e:  # observation
+                        out["again"].update(done=True, err=_err(e))
+            except ArithmeticError:
+                pass
+            finally:
+                S.set_value(keep)
+                fix.plain["S"] = keep
         dval = dres.val if out["d"]["kind"] == "AdArray" else None
         djac = _dense(dres.jac) if out["d"]["kind"] == "AdArray" else None
         vval = _as_vec(vres) if out["v"]["kind"] in ("ndarray", "float") else None
@@ -530,11 +552,11 @@ def judge(ctx, fix, outs, prefix=""):
     jc = dict(spec_consts(fix), NDOF=fix.ndof, TolPass=TOL_PASS, TolFail=TOL_FAIL)
     for lo in range(0, len(outs), 5000):
         batch = outs[lo:lo + 5000]
-        cases = [{k: o[k] for k in ("expr", "berr", "built", "d", "v", "r", "exact", "q", "prev")} for o in batch]
+        cases = [{k: o[k] for k in ("expr", "berr", "built", "d", "v", "r", "exact", "q", "prev", "again")} for o in batch]
         for v in ctx.judge("J_OperatorTree", cases, ["Verdict"], consts=jc, workers=8):
             o = batch[v["case"] - 1]
             rec = dict(expr=o["expr"], prog=o["prog"], prevprogs=o["prevprogs"], entry=o["entry"], seed=o["seed"],
-                       observed={k: o[k] for k in ("berr", "built", "d", "v", "r", "exact", "q", "prev")})
+                       observed={k: o[k] for k in ("berr", "built", "d", "v", "r", "exact", "q", "prev", "again")})
             if v.get("tag") == "inconclusive":
                 ctx.inconclusive += 1
             elif v["clause"] == "OracleSane":
@@ -542,7 +564,7 @@ def judge(ctx, fix, outs, prefix=""):
             elif v["clause"] == "TreeConforms":
                 ctx.drift(f"built tree differs from Build: {shape_key(o['expr'])} built={o['built']}", rec)
             else:
-                what = o["berr"] or o["d"]["err"] or o["v"]["err"] or "results differ"
+                what = o["berr"] or o["d"]["err"] or o["v"]["err"] or (v["clause"] == "AfterSetValueAgrees" and o["again"]["err"]) or "results differ"
                 ctx.violation(v["clause"], rec, f"{prefix}{shape_key(o['expr'])} entry={o['entry']}: {what}")
 
 
